@@ -34,6 +34,19 @@ Atoms == <<
 Delims == << <<"dq", <<34>>, <<34>> >>, <<"sq", <<39>>, <<39>> >>,
              <<"l0", <<91, 91>>, <<93, 93>> >>, <<"l1", <<91, 61, 91>>, <<93, 61, 93>> >> >>
 
+(* Mode "nc": long brackets of level 0..3 whose body holds a near-closer - "]" and 0..3 "=", with or      *)
+(* without a second "]" (closers of lower and higher level, and the unterminated one of equal level) -   *)
+(* directly before each kind of line end, before other text and at the end of the body, after each kind  *)
+(* of body start.  The literals that end early (kind "partial") are dropped by the check.                *)
+NcEnds == << <<>>, <<10>>, <<13>>, <<13, 10>>, <<10, 13>>, <<10, 10>>, <<13, 13>>, <<120>>, <<61>> >>
+NcStarts == << <<>>, <<97>>, <<10>>, <<13, 10>>, <<10, 97>>, <<93>> >>
+NcTails == << <<>>, <<98>>, <<10>>, <<13>>, <<93>> >>
+NcCase(lvl, k, br, e, p, q) ==
+    LET body == NcStarts[p] \o <<93>> \o Rep(61, k) \o (IF br THEN <<93>> ELSE <<>>) \o NcEnds[e] \o NcTails[q]
+        full == LongOpen(lvl) \o body \o LongClose(lvl)
+        r == Denote(full)
+    IN [t |-> full, kind |-> r.kind, v |-> r.val]
+
 Data == IF Mode = "file" THEN ndJsonDeserialize(File) ELSE <<>>
 
 VARIABLE st     \* <<"w", s>> walking strings; <<"root">>, <<"chunk", c>>, <<"item", i>> in file mode
@@ -41,10 +54,12 @@ VARIABLE st     \* <<"w", s>> walking strings; <<"root">>, <<"chunk", c>>, <<"it
 AlphaOf == CASE Mode = "lit" -> StrAlpha [] Mode = "num" -> NumAlpha
              [] Mode = "src" -> 1..Len(Atoms) [] OTHER -> {}
 
-Init == st = IF Mode = "file" THEN <<"root">> ELSE <<"w", <<>>>>
+Init == st = IF Mode = "file" THEN <<"root">> ELSE IF Mode = "nc" THEN <<"ncroot">> ELSE <<"w", <<>>>>
 Next == \/ /\ st[1] = "w"
            /\ Len(st[2]) < MaxLen
            /\ \E c \in AlphaOf : st' = <<"w", Append(st[2], c)>>
+        \/ /\ st[1] = "ncroot"
+           /\ \E lvl \in 0..3, k \in 0..3 : st' = <<"nc", lvl, k>>
         \/ /\ st[1] = "root"
            /\ \E c \in 0..(NChunks - 1) : st' = <<"chunk", c>>
         \/ /\ st[1] = "chunk"
@@ -71,6 +86,10 @@ GenPrint ==
                 forms |-> [F \in {G \in Forms : Denotes(Render(G, st[2]), st[2])} |-> Render(F, st[2])]]))
       [] st[1] = "w" /\ Mode = "num" -> PrintT("GEN " \o ToJson(NumCase(st[2])))
       [] st[1] = "w" /\ Mode = "src" -> PrintT("GEN " \o ToJson([c |-> SrcCase(st[2])]))
+      [] st[1] = "nc" ->
+            PrintT("GEN " \o ToJson([c |-> [x \in {<<br, e, p, q>> : br \in BOOLEAN, e \in 1..Len(NcEnds), p \in 1..Len(NcStarts),
+                                                     q \in 1..Len(NcTails)} |->
+                                             NcCase(st[2], st[3], x[1], x[2], x[3], x[4])]]))
       [] st[1] = "item" ->
             LET d == Data[st[2]] IN
             IF d.k = "lit"
